@@ -725,4 +725,60 @@ example : aggregate2 [⟨0, .num 3⟩, ⟨1, .int 3⟩, ⟨2, .str 3⟩, ⟨3, .
     aggPercentile, avals, FVal.numeric, sortInts, pctIndex, aggStdDevDefined, List.mergeSort,
     List.MergeSort.Internal.splitInTwo]
 
+/-! ## min / max over all of f64 (`XV` cases): the fold meets the declarative oracle -/
+
+/-- `TimeWindow::min` as coded (a left fold with `f64::min` from `None`, `xMin`) satisfies the oracle clause `xMinOk` that
+the driver evaluates on the implementation's answers (`fail xv-min`, `xv-aggregator-min-max`, `xv-operators-min-max`), for EVERY
+list of field views — any length, any mix of `±inf`, `±f64::MAX`, integers, NaN, non-numeric / missing fields:
+`None` iff there is no numeric value, NaN iff every numeric value is NaN, otherwise a non-NaN member that is `≤` every
+non-NaN member. -/
+theorem xmin_meets_spec (vs : List (Option XNum)) : xMinOk vs (xMin vs) = true := xMin_ok vs
+
+/-- the same for `TimeWindow::max` (`xMax`, fold with `f64::max`) and `xMaxOk` -/
+theorem xmax_meets_spec (vs : List (Option XNum)) : xMaxOk vs (xMax vs) = true := xMax_ok vs
+
+/-- the oracle clause determines the answer: whatever satisfies `xMinOk` / `xMaxOk` IS the model's answer (so the clause on
+the implementation's observation is as strong as the diff against the fold) -/
+theorem xextreme_unique (vs : List (Option XNum)) (r : Option XNum) :
+    (xMinOk vs r = true → r = xMin vs) ∧ (xMaxOk vs r = true → r = xMax vs) :=
+  ⟨fun h => xExtP_unique XNum.le_antisymm _ _ _ (by rwa [xMinOk, xExtremeOk_eq] at h)
+      (by have := xMin_ok vs; rwa [xMinOk, xExtremeOk_eq] at this),
+   fun h => xExtP_unique (fun a b h1 h2 => XNum.le_antisymm a b h2 h1) _ _ _ (by rwa [xMaxOk, xExtremeOk_eq] at h)
+      (by have := xMax_ok vs; rwa [xMaxOk, xExtremeOk_eq] at this)⟩
+
+-- non-vacuity: +inf, −inf, NaN, ±f64::MAX, a non-numeric field
+example : xMin [some .pinf, some (.fin 3), none, some .nan, some .ninf, some .hi] = some .ninf
+    ∧ xMax [some .pinf, some (.fin 3), none, some .nan, some .ninf, some .hi] = some .pinf := by decide
+example : xMin [some .nan, some .pinf] = some .pinf ∧ xMax [some .ninf, some .nan] = some .ninf := by decide
+example : xMin [some .nan, none, some .nan] = some .nan ∧ xMax [none] = none := by decide
+example : xMin [some (.fin 1), some .lo, some (.fin (-2))] = some .lo ∧ xMax [some (.fin 1), some .hi] = some .hi := by decide
+-- the clause rejects a wrong extreme, a NaN answer next to a number, and `None` for a window with a numeric value
+example : xMinOk [some .pinf, some (.fin 3), some .nan] (some .pinf) = false
+    ∧ xMinOk [some .pinf, some (.fin 3), some .nan] (some .nan) = false
+    ∧ xMaxOk [some .ninf] none = false
+    ∧ xMaxOk [some .ninf, some .nan] (some .ninf) = true := by decide
+
+/-! ## durations that are not whole milliseconds -/
+
+/-- The milliseconds the driver hands to the model for a duration token (`DurArg.ms`: `<n>` ↦ `n`, `u<n>` ↦ `n / 1000`) are
+exactly `Duration::as_millis()` of the `Duration` the harness builds for that token (`from_millis(n)` / `from_micros(n)`), for
+every `n`; and for `n : u64` the value fits the `as u64` cast every component applies. -/
+theorem parseDur_truncates (a : DurArg) :
+    a.ms = a.dur.asMillis ∧ (∀ n, (a = .millis n ∨ a = .micros n) → n < 2 ^ 64 → a.dur.asMillis < 2 ^ 64) := by
+  cases a with
+  | millis k =>
+    refine ⟨(dur_millis_roundtrip k).symm, ?_⟩
+    rintro n (h | h) hn
+    · cases h; simp only [DurArg.dur]; rw [dur_millis_roundtrip]; exact hn
+    · cases h
+  | micros k =>
+    refine ⟨(dur_micros_truncates k).symm, ?_⟩
+    rintro n (h | h) hn
+    · cases h
+    · cases h; simp only [DurArg.dur]; rw [dur_micros_truncates]; omega
+
+example : (DurArg.micros 2999).ms = 2 ∧ (DurArg.micros 2999).dur = ⟨0, 2999000⟩ ∧ (DurArg.micros 2999).dur.asMillis = 2
+    ∧ (DurArg.micros 999).ms = 0 ∧ (DurArg.micros 1234567).dur = ⟨1, 234567000⟩ ∧ (DurArg.micros 1234567).ms = 1234
+    ∧ (DurArg.millis 1500).dur = ⟨1, 500000000⟩ ∧ (DurArg.millis 1500).ms = 1500 := by decide
+
 end C12
